@@ -24,7 +24,7 @@ pub struct Kind {
     pub expensive: bool,
 }
 
-pub const KINDS: [Kind; 27] = [
+pub const KINDS: [Kind; 28] = [
     Kind { name: "Fq2::sqrt (squares and non-squares)", expensive: false },       // 0  C18
     Kind { name: "Fq::sqrt", expensive: false },                                  // 1  C18
     Kind { name: "Fr::sqrt", expensive: false },                                  // 2  C18
@@ -52,6 +52,7 @@ pub const KINDS: [Kind; 27] = [
     Kind { name: "G1 sum_of_products (rotating lists)", expensive: false },       // 24 C10
     Kind { name: "pairing_multi_product (rotating pairs)", expensive: true },     // 25 C11
     Kind { name: "G1 add / double (distinct operands)", expensive: false },       // 26 C01
+    Kind { name: "G1 sum_of_products (1030 and 4100 terms)", expensive: true },   // 27 C10 / C20
 ];
 
 struct State {
@@ -224,6 +225,13 @@ fn eval(kind: usize, i: usize, st: &State) -> Result<Vec<u8>, String> {
             let qs = [a2, st.p2[(i + 1) % st.p2.len()]];
             put_fq12(&mut out, &cr("pairing_multi_product", || Bls12::pairing_multi_product(&ps, &qs))?);
         }
+        27 => {
+            let n = if i % 2 == 0 { 1030 } else { 4100 };
+            let bases: Vec<crt::G1Affine> = (0..n).map(|j| st.p1[(i + j) % st.p1.len()]).collect();
+            let ks: Vec<[u64; 4]> = (0..n).map(|j| frv(i * 7 + j, s).into_repr().0).collect();
+            let refs: Vec<&[u64; 4]> = ks.iter().collect();
+            put_g1(&mut out, &cr("sum_of_products", || G1m::op_sum_of_products(&bases, &refs))?);
+        }
         _ => {
             let mut p = a1.into_projective();
             cr("add", || p.add_assign(&st.p1[(i + 1) % st.p1.len()].into_projective()))?;
@@ -262,9 +270,9 @@ fn walk2(start: &refmodel::curve::Pt<refmodel::fld::Fq2>, n: usize) -> Vec<crt::
 
 pub fn n_for(tier: Tier, kind: usize) -> usize {
     match (tier, KINDS[kind].expensive) {
-        (Tier::Quick, true) => 2_300,
+        (Tier::Quick, true) => if kind == 27 { 300 } else { 2_300 },
         (Tier::Quick, false) => 4_400,
-        (_, true) => 9_000,
+        (_, true) => if kind == 27 { 2_000 } else { 9_000 },
         (_, false) => 70_000,
     }
 }
@@ -372,9 +380,9 @@ pub fn burst_case(kind: usize, reps: usize, threads: usize, seed: u64) -> Result
 
 pub fn burst_reps(tier: Tier, kind: usize) -> usize {
     match (tier, KINDS[kind].expensive) {
-        (Tier::Quick, true) => 150,
+        (Tier::Quick, true) => if kind == 27 { 12 } else { 150 },
         (Tier::Quick, false) => 3_000,
-        (_, true) => 1_500,
+        (_, true) => if kind == 27 { 100 } else { 1_500 },
         (_, false) => 60_000,
     }
 }
